@@ -129,6 +129,7 @@ impl<F: Float> FFT<F> {
             }
             return;
         }
+        self.update_n(n);
         let buf = &mut self.bufs[0];
         buf.clear();
         buf.resize(v.len(), Complex::ZERO);
